@@ -1,4 +1,6 @@
 // instantiation driver: joint_allocator.hpp over an abstract upstream allocator and a joint type with a throwing constructor
+// (std::unique_ptr, should the code under contract come to use it, is the standard-semantics MODEL of std_unique_ptr_model.hpp)
+#include "std_unique_ptr_model.hpp"
 #include "abstract.hpp"
 #include "joint_allocator.hpp"
 namespace verif
